@@ -1,6 +1,6 @@
 SPECIFICATION Spec
 CONSTANTS
-  K = 2
+  K = 1
   SrcEnds = {"eof", "err"}
   IniEnds = {"closesend", "cancel"}
   Faults = {"unkMsg", "unkAck", "tgtSendFail", "srcSendFail", "openFail"}
